@@ -7,7 +7,7 @@ from typing import Dict, List, Optional, Sequence, Set, Tuple
 from ..astutil import call_name, calls_in, kwarg, store_targets, unparse
 from ..cfg import CFG, CNode, Edge, LocalDefs, path_text
 from ..index import AnalysisError, ClassInfo, Index
-from ..inventory import call_sites, recv_class, stores_to_attr
+from ..inventory import only_called_from, call_sites, recv_class, stores_to_attr
 from ..report import Ctx
 from .common import edge_state_set, enum_member, node_calls, nodes_calling
 
@@ -239,7 +239,7 @@ def r14_1(ctx: Ctx) -> None:
     n = 0
     for s in stores_to_attr(ix, VISIBLE_ATTRS):
         n += 1
-        ok = s.owner in VISIBLE_WRITERS and not s.in_lambda
+        ok = (s.owner in VISIBLE_WRITERS or bool(only_called_from(ix, s.fn, VISIBLE_WRITERS))) and not s.in_lambda
         ctx.record("R14.1", f"{s.path}::{s.owner}::store {s.attr}", s.where, ok,
                    VISIBLE_WRITERS.get(s.owner, "visible health written outside a scan: the agent would see a change no scan produced"))
     ctx.floor("R14.1", "stores to visible health fields", n, 5)
@@ -415,7 +415,7 @@ def r14_3(ctx: Ctx) -> None:
 
     for s in stores_to_attr(ix, TRUE_ATTRS):
         n += 1
-        ok = s.owner in TRUE_WRITERS and not s.in_lambda
+        ok = (s.owner in TRUE_WRITERS or bool(only_called_from(ix, s.fn, TRUE_WRITERS))) and not s.in_lambda
         ctx.record("R14.3", uniq(f"{s.path}::{s.owner}::store {s.attr} = {unparse(s.value)[:40]}"), s.where, ok,
                    TRUE_WRITERS.get(s.owner, "true health changed outside the explicit events (attack, start/install, fix/repair/restore)"))
     ctx.floor("R14.3", "stores to true health fields", n, 16)
